@@ -1,2 +1,99 @@
-From BMC Require Import Base.
-Theorem C03_placeholder : True. Proof. exact I. Qed.
+(* C03 — Every packet sent in a session is authenticated, encrypted and well-formed.
+   Library side: [session_command_packet s seq iv o lun body] = V2Session.buildAndSend, one attempt
+   (RMCP | v2.0 wrapper with Encrypted+Authenticated flags, RemoteID, sequence number | AES-128-CBC(iv) | IPMI
+   message | request body), [session_loop] = the retry loop around it (every attempt: next sequence number,
+   next 16 bytes from the random source); both are run against the Go code on every history of the C03/C09/C10
+   checks.  Judge: [Bmc.accept] of SpecBmc.v, everything a conforming BMC checks before executing an in-session
+   request — session ID, both flags, 0xFF integrity pad to a 4-byte multiple, pad-length byte, next header 07h,
+   AuthCode recomputed with ITS K1 over auth-type..next-header, AES-128-CBC decryption with the first 16 bytes of
+   ITS K2, confidentiality trailer 01 02 .. n n (n <= 15), both checksums of the IPMI message — returning the IV,
+   the sequence number and the request it would execute.
+   No premise about the cipher: AES-128 invertibility is proved (AesInverse.v). *)
+From BMC Require Import Base Prim Layers Layers2 Serialize SpecRequests Packet Conn Handshake SpecBmc RequestProofs Aes.
+From BMC Require Import SentPacketProofs IvProofs.
+
+(* whatever fits a UDP datagram: accepted by the BMC as exactly the caller's command, for every suite the
+   console's [s_sign] is the negotiated algorithm keyed with K1, every sequence number, IV, command, LUN, body *)
+Theorem C03_sent_packet_accepted : forall (act : Bmc.active) (s : session),
+  (16 <= length (Bmc.a_k2 act))%nat -> Forall (fun b => b < 256) (Bmc.a_k2 act) ->
+  s_remote_id s = Bmc.a_bmc_id act -> s_remote_id s < 4294967296 ->
+  (forall m, Some (s_sign s m) = Bmc.authcode (Bmc.a_integ act) (Bmc.a_k1 act) m) ->
+  s_enc s = aes128_encrypt_block (firstn 16 (Bmc.a_k2 act)) ->
+  forall seq iv o lun body pkt,
+  seq < 4294967296 -> length iv = 16%nat -> Forall (fun b => b < 256) iv -> Forall (fun b => b < 256) body ->
+  op_fn o < 64 -> op_fn o mod 2 = 0 -> op_fn o <> 0x2e -> op_cmd o < 256 -> lun < 4 -> (op_fn o = 0x2c -> op_body o < 256) ->
+  session_command_packet s seq iv o lun body = Ok pkt -> N.of_nat (length pkt) <= 65507 ->
+  Bmc.accept act pkt = Some (iv, seq, expected_lanreq o lun body).
+Proof. exact sent_packet_accepted_udp. Qed.
+
+(* the same, clause by clause as the property states it: the bytes of the datagram *)
+Theorem C03_spelled_out : forall act : Bmc.active,
+  (16 <= length (Bmc.a_k2 act))%nat -> Forall (fun b => b < 256) (Bmc.a_k2 act) ->
+  forall s : session, s_remote_id s = Bmc.a_bmc_id act ->
+  (forall m, Some (s_sign s m) = Bmc.authcode (Bmc.a_integ act) (Bmc.a_k1 act) m) ->
+  s_enc s = aes128_encrypt_block (firstn 16 (Bmc.a_k2 act)) ->
+  forall sqn iv o lun body pkt,
+  length iv = 16%nat -> Forall (fun b => b < 256) iv -> Forall (fun b => b < 256) body ->
+  op_fn o < 64 -> op_fn o mod 2 = 0 -> op_fn o <> 0x2e -> op_cmd o < 256 -> lun < 4 -> (op_fn o = 0x2c -> op_body o < 256) ->
+  request_message_length o body < 65504 ->
+  session_command_packet s sqn iv o lun body = Ok pkt ->
+  exists msg ct code,
+    let p := (15 - length msg mod 16)%nat in
+    let padded := msg ++ map (fun i => N.of_nat (i + 1)) (seq 0 p) ++ [N.of_nat p] in
+    let cov := [6; 0xC0] ++ put_le32 (Bmc.a_bmc_id act) ++ put_le32 sqn ++ put_le16 (N.of_nat (16 + length ct))
+               ++ (iv ++ ct) ++ [0xff; 0xff; 2; 7] in
+    pkt = [6; 0; 0xff; 7] ++ cov ++ code /\
+    N.of_nat (16 + length ct) < 65536 /\ (length cov mod 4)%nat = 0%nat /\
+    Some code = Bmc.authcode (Bmc.a_integ act) (Bmc.a_k1 act) cov /\ length code = Bmc.authcode_len (Bmc.a_integ act) /\
+    ct = cbc_encrypt (aes128_encrypt_block (firstn 16 (Bmc.a_k2 act))) iv padded /\
+    cbc_decrypt (aes128_decrypt_block (firstn 16 (Bmc.a_k2 act))) iv ct = padded /\
+    (length padded mod 16)%nat = 0%nat /\ length ct = length padded /\
+    N.of_nat (length msg) = request_message_length o body /\
+    SpecParse.lan_request msg = Some (expected_lanreq o lun body).
+Proof. exact sent_packet_spelled_out. Qed.
+
+(* pad arithmetic for every length residue mod 4 and mod 16 *)
+Theorem C03_pad_residues :
+  (forall n, integrity_padlen n = ((4 - (n + 14) mod 4) mod 4)%nat /\ (integrity_padlen n <= 3)%nat /\
+             ((12 + n + integrity_padlen n + 2) mod 4)%nat = 0%nat) /\
+  (forall n, let p := (15 - n mod 16)%nat in
+             aes_trailer n = map (fun i => N.of_nat (i + 1)) (seq 0 p) ++ [N.of_nat p] /\ (p <= 15)%nat /\
+             ((n + length (aes_trailer n)) mod 16)%nat = 0%nat).
+Proof. exact sent_packet_pad_residues. Qed.
+
+(* IVs: the datagram carries exactly the 16 bytes drawn for it ... *)
+Theorem C03_iv_is_the_draw : forall s : session, (forall b, length (s_enc s b) = 16%nat) ->
+  forall seq iv o lun body pkt, length iv = 16%nat ->
+  op_fn o < 64 -> op_fn o mod 2 = 0 -> op_fn o <> 0x2e -> op_cmd o < 256 -> lun < 4 -> (op_fn o = 0x2c -> op_body o < 256) ->
+  request_message_length o body < 65504 ->
+  session_command_packet s seq iv o lun body = Ok pkt -> firstn 16 (skipn 16 pkt) = iv.
+Proof. exact iv_is_the_callers. Qed.
+(* ... and over a whole command with retries every attempt uses the next draw, each draw once: the IVs on the
+   wire are the first draws in order, pairwise distinct whenever the random source's draws are.  (That
+   crypto/rand does not repeat a 128-bit draw is not provable; the check looks for repeats across histories.) *)
+Theorem C03_ivs_follow_the_draws : forall s : session, (forall b, length (s_enc s b) = 16%nat) ->
+  forall o lun body,
+  op_fn o < 64 -> op_fn o mod 2 = 0 -> op_fn o <> 0x2e -> op_cmd o < 256 -> lun < 4 -> (op_fn o = 0x2c -> op_body o < 256) ->
+  request_message_length o body < 65504 ->
+  forall script seq ivs sent codes,
+  Forall (fun iv => length iv = 16%nat) ivs -> (length script <= length ivs)%nat ->
+  exists new, lr_sent (session_loop s o lun body seq ivs script sent codes) = sent ++ new /\
+              map iv_field new = firstn (length new) ivs.
+Proof. exact session_loop_ivs. Qed.
+Theorem C03_ivs_never_reused : forall s : session, (forall b, length (s_enc s b) = 16%nat) ->
+  forall o lun body,
+  op_fn o < 64 -> op_fn o mod 2 = 0 -> op_fn o <> 0x2e -> op_cmd o < 256 -> lun < 4 -> (op_fn o = 0x2c -> op_body o < 256) ->
+  request_message_length o body < 65504 ->
+  forall script seq ivs sent codes,
+  Forall (fun iv => length iv = 16%nat) ivs -> (length script <= length ivs)%nat -> NoDup ivs ->
+  exists new, lr_sent (session_loop s o lun body seq ivs script sent codes) = sent ++ new /\ NoDup (map iv_field new).
+Proof. exact session_loop_ivs_distinct. Qed.
+
+(* the one thing the wrapper's 16-bit length field cannot carry: a message of 65504 bytes or more wraps the field
+   and is rejected by any BMC; such a datagram exceeds what UDP can carry, so the library never transmits one *)
+Theorem C03_oversize_cannot_be_sent : forall (act : Bmc.active) (s : session) seq iv o lun body pkt,
+  (forall b, length (s_enc s b) = 16%nat) -> length iv = 16%nat ->
+  op_fn o < 64 -> op_fn o mod 2 = 0 -> op_fn o <> 0x2e -> op_cmd o < 256 -> lun < 4 -> (op_fn o = 0x2c -> op_body o < 256) ->
+  65504 <= request_message_length o body ->
+  session_command_packet s seq iv o lun body = Ok pkt -> Bmc.accept act pkt = None /\ 65507 < N.of_nat (length pkt).
+Proof. exact oversize_request_rejected. Qed.
